@@ -2,6 +2,7 @@
 from harness.oracles import common, fixprops
 
 LEVEL = "exploration"
+SEED_SPACE = {"quick": 32, "thorough": 4}
 RULE = (
     "cases = (VHDL text, style, configuration): every fixture as is under the default and jcl styles, plus Hypothesis-drawn meaning-preserving "
     "re-layouts (levels 1-4) of fixtures under style in {none, jcl, indent_only} and generated configurations; a monitored rule_list.fix() is run and for "
